@@ -40,6 +40,19 @@ fn end_probe(rep: &mut Rep, w: &mut World) {
     }
 }
 
+/// Once something was cancelled, anything that goes wrong for the *other* operations, streams or run() is a C15 violation.
+fn claim_after_cancel(w: &mut World, acts: &[Act]) {
+    if !acts.iter().any(|x| matches!(x, Act::DropOp(_) | Act::DropStream(_))) {
+        return;
+    }
+    for v in w.viols.iter_mut() {
+        if !v.props.contains(&"C15") && !v.props.contains(&"*") {
+            v.sig = format!("C15/after-cancel/{}", v.sig);
+            v.props = &["C15"];
+        }
+    }
+}
+
 pub fn run(rep: &mut Rep) {
     let a = Alpha {
         kinds: vec![Kind::Pub0, Kind::Pub1, Kind::Pub2, Kind::Sub, Kind::Unsub, Kind::Ping],
@@ -56,6 +69,19 @@ pub fn run(rep: &mut Rep) {
         writer_stall: true,
         ..Default::default()
     };
+    // second alphabet: several subscriptions whose streams / futures are dropped while messages for one,
+    // two or none of them arrive - the survivors' streams must be unaffected
+    let b = Alpha {
+        kinds: vec![Kind::Sub],
+        max_ops: 3,
+        max_conc: 3,
+        sub_ack_variants: vec![(0, 0)],
+        drops: true,
+        streams: true,
+        inbound: vec![(0, 0, false, SubSel::Both), (1, 1, false, SubSel::Op(2)), (0, 0, false, SubSel::Op(1))],
+        max_inbound: 3,
+        ..Default::default()
+    };
     let depth = if rep.quick() { 5 } else { 7 };
     rep.note(&format!("exhaustive: Receive Maximum in {{1,2,absent}}: every path of <= {depth} actions over {{create/start pub0/pub1/pub2/sub/unsub/ping, first poll, cancel (drop) any pending future at any point incl. before first poll, while queued behind a stalled writer, awaiting its ack, between the QoS 2 phases; deliver acks (also the late ones of cancelled operations); take/drop streams; inbound PUBLISH}}; run() must stay pending, survivors keep their own results, and an end-of-script probe counts the free flow-control slots after the broker completed every exchange"));
     for r in [Some(1u16), Some(2), None] {
@@ -69,6 +95,7 @@ pub fn run(rep: &mut Rep) {
             }
             let id = format!("{name}:{}", ch.id());
             end_probe(rep, &mut w);
+            claim_after_cancel(&mut w, &acts);
             rep.add("evaluations", 1);
             rep.add("paths_enumerated", 1);
             rep.add("cancellations", acts.iter().filter(|x| matches!(x, Act::DropOp(_) | Act::DropStream(_))).count() as i64);
@@ -89,7 +116,55 @@ pub fn run(rep: &mut Rep) {
         let cell = std::cell::RefCell::new(&mut *rep);
         enumerate::explore(depth, 2, shard, nshards, |ch| body(&mut cell.borrow_mut(), ch));
     }
+    {
+        let name = "exh-streams".to_string();
+        let seed = rep.seed;
+        let depth_b = if rep.quick() { 9 } else { 11 };
+        let body = |rep: &mut Rep, ch: &mut Chooser| {
+            let mut w = World::boot(WorldCfg { seed, ..Default::default() });
+            // three subscriptions, all acknowledged, streams taken
+            let mut subs = Vec::new();
+            for _ in 0..3 {
+                let i = w.start(0, Kind::Sub);
+                w.settle_check();
+                w.deliver_ack(i, 1, 0, 0);
+                w.settle_check();
+                subs.push(i);
+            }
+            let acts = run_path(&mut w, &b, ch);
+            if ch.probe {
+                return;
+            }
+            let id = format!("{name}:{}", ch.id());
+            claim_after_cancel(&mut w, &acts);
+            rep.add("evaluations", 1);
+            rep.add("paths_enumerated", 1);
+            rep.add("cancellations", acts.iter().filter(|x| matches!(x, Act::DropOp(_) | Act::DropStream(_))).count() as i64);
+            rep.distinct(&("streams", w.shape()));
+            if harvest(rep, &mut w, &id) == 0 && acts.iter().filter(|x| matches!(x, Act::DropStream(_))).count() >= 2 {
+                rep.sample(|| format!("{id} {:?}", acts));
+            }
+            add_counters(rep, &w);
+            let _ = depth_b;
+        };
+        if let Some(only) = rep.only.clone() {
+            if let Some(path) = only.strip_prefix(&format!("{name}:")) {
+                let mut ch = Chooser::fixed(enumerate::parse_id(path));
+                body(rep, &mut ch);
+            }
+        } else {
+            let (shard, nshards) = (rep.shard, rep.nshards);
+            let cell = std::cell::RefCell::new(&mut *rep);
+            enumerate::explore(if cell.borrow().quick() { 6 } else { 8 }, 2, shard, nshards, |ch| body(&mut cell.borrow_mut(), ch));
+        }
+    }
     // random walks
+    let mut wb = b.clone();
+    wb.max_ops = 8;
+    wb.max_conc = 6;
+    wb.max_inbound = 60;
+    wb.inbound.push((2, 2, false, SubSel::Op(0)));
+    wb.pubrels = vec![2];
     let mut wa = a.clone();
     wa.max_ops = 80;
     wa.max_conc = 5;
@@ -104,8 +179,9 @@ pub fn run(rep: &mut Rep) {
         let mut rng = Rng::new(seed);
         let r = [Some(1u16), Some(2), Some(3), None][(k % 4) as usize];
         let mut w = World::boot(WorldCfg { seed, receive_max: r, order: (k % 4) as u8, ..Default::default() });
-        let acts = run_walk(&mut w, &wa, &mut rng, 150);
+        let acts = run_walk(&mut w, if k % 3 == 2 { &wb } else { &wa }, &mut rng, 150);
         end_probe(rep, &mut w);
+        claim_after_cancel(&mut w, &acts);
         rep.add("evaluations", 1);
         rep.add("random_walks", 1);
         rep.add("cancellations", acts.iter().filter(|x| matches!(x, Act::DropOp(_) | Act::DropStream(_))).count() as i64);
